@@ -6,7 +6,7 @@ import numpy as np
 from hypothesis import strategies as st
 
 from engine import lib, observe, scen, xforms, zz9enc
-from engine.cmp import close
+from engine.cmp import close, is_root, roots_close
 from engine.observe import Raised
 from engine.oracle import Oracle, apparent_dims
 from engine.runner import SubCheck
@@ -239,7 +239,7 @@ WAVE_FAMILY = {0: _WAVE, 1: _WAVE}
 def merge_case_st(draw):
     sc = draw(scen.scenario_st(MERGE_SHAPES, measure="maybe", min_valid=2, max_valid=5,
                                stats=["mean", "sum"], allow_order_key=False,
-                               weight_kinds=("none", "int", "dyadic")))
+                               weight_kinds=("none", "int", "dyadic", "tenths")))
     sv, q = sc["survey"], sc["query"]
     cands = []
     for k, d in enumerate(q["dims"]):
@@ -458,7 +458,7 @@ def judge_merge(case, rec):
             # differs ONLY where the subtotal meets a difference on the opposing
             # categorical-date dimension
             sig = "subtotal-x-wave-difference-intersection"
-        if not _vec_close(a, m):
+        if not _vec_close(a, m) and not (is_root(name) and roots_close(a, m)):
             rec.violation(
                 "%s of the subtotal %r differs from the merged category: %r vs %r (axis %d)"
                 % (name, case["adds"], np.asarray(a).tolist(), np.asarray(m).tolist(), which),
